@@ -110,6 +110,11 @@ def cases(ctx, big=False):
             if chan == "-m" and ("\x00" in doc or doc.startswith("-")):
                 continue
             out.append(dict(escape=bool(j % 2), hardwrap=False, renderer=RENDERERS[j % 3] if j % 4 == 3 else "html", plugins=PLUGIN_SETS[j % 4], chan=chan, outfile=(j % 5 == 4), doc=doc))
+    # renderings that are the empty string (only definitions / blank lines): the output file is the library's result, unchanged
+    for doc in ("[home]: https://example.com/\n", "[^1]: unreferenced\n", "\n\n", " \n", "*[HTML]: Hyper\n", "[a]: /u\n[b]: /v 't'\n"):
+        for chan in ("-f", "stdin", "-m"):
+            for rend in RENDERERS:
+                out.append(dict(escape=False, hardwrap=False, renderer=rend, plugins=(["footnotes", "abbr"] if rend == "html" else None), chan=chan, outfile=True, doc=doc))
     for doc in ("---", "-x", "- item\n- two", "-", "--help me", "@file"):
         out.append(dict(escape=True, hardwrap=False, renderer="html", plugins=None, chan="-m", outfile=False, doc=doc))
     return out
